@@ -122,8 +122,10 @@ ErrArm == "ErrSendBlocks" \notin Dev          \* error sends also select on ctx.
 (* splitter *)
 SplitScan ==
   /\ pc[Split] = "scan"
-  /\ \/ /\ ctxDone /\ Set(Split, "exit") /\ UNCHANGED <<item, next>>          \* select { case <-ctx.Done(): return; default: }
-     \/ /\ next <= N /\ readerFail >= next
+  \* every scanned line polls the context (select with default: a cancelled context is always seen); the LAST
+  \* block is sent after the loop, at EOF, without a poll in between
+  /\ \/ /\ ctxDone /\ next <= N /\ Set(Split, "exit") /\ UNCHANGED <<item, next>>
+     \/ /\ next <= N /\ readerFail >= next /\ (ctxDone => next = N)
         /\ Set(Split, "send") /\ item' = [item EXCEPT ![Split] = next] /\ next' = next + 1
      \/ /\ next <= N + 1 /\ readerFail = next - 1 /\ readerFail <= N
         /\ Set(Split, "errsend") /\ UNCHANGED <<item, next>>
